@@ -113,6 +113,19 @@ func (l *Lab) Reset(schemas ...*Schema) {
 	l.Coord.ResetLocks()
 }
 
+// Reopen replaces the proxy handle by a fresh one on the same data source: what a second application instance
+// (or a restarted one) holds - its own resource registration and its own table-metadata cache, filled by
+// whatever statement touches a table first.
+func (l *Lab) Reopen() {
+	old := l.DB
+	db, err := sql.Open("seata-at-memsql", l.DSN())
+	if err != nil {
+		panic(err)
+	}
+	l.DB = db
+	_ = old.Close()
+}
+
 // Load puts the abstract table into the concrete table (admin path, not journaled).
 func (l *Lab) Load(s *Schema, rows []Row) {
 	for i, r := range rows {
@@ -409,7 +422,7 @@ func StatusName(st branch.BranchStatus, ok bool) string {
 func (l *Lab) Rollback(xid string, bid int64, fail int) (status string, fired bool) {
 	before := l.Srv.FaultsFired()
 	if fail > 0 {
-		l.Srv.AddFault(memsql.Fault{Nth: fail})
+		l.Srv.AddFault(memsql.Fault{Nth: fail, SkipMeta: true})
 	}
 	st, ok := l.Coord.BranchRollback(l.Sess, xid, bid, branch.BranchTypeAT, l.RID, nil, 8*time.Second)
 	l.Srv.ClearFaults()
